@@ -1,6 +1,11 @@
 // C08 / C09: the type checker.  case: mode octx tctx chk obj
-//   mode "v": verdict;  mode "s": verdict + number of loop iterations (hook verif_steps), the
-//             check is run twice from scratch and must give the same answer
+//   mode "v": verdict;  mode "s": verdict + number of loop iterations (hook verif_steps) + "stable".
+//   Every case is run several times and must always give the same answer (verdict and iterations):
+//   twice from scratch ("nondeterministic" otherwise), twice on the same TypeCheckContext, and on
+//   contexts on which a DIFFERENT check with the SAME name as the root check (one that accepts
+//   everything, one that rejects everything) was used as a top-level check before and after
+//   ("unstable:<run>" otherwise).  Each case runs in its own thread under a watchdog: a check that
+//   does not come back within WATCHDOG_MS is the observation "timeout".
 //   octx  "num.gen=obj;…" | "-"        (implrun::pdfobj::read_ctx)
 //   tctx  "name=chk;…" | "-"           named checks, registered in this order
 //   chk   one-token text form of a check (harness/src/tcspec.rs, docs/TCSPEC.md)
@@ -11,7 +16,8 @@ mod tcspec;
 use implrun::*;
 use parsley_rust::pdf_lib::pdf_obj::PDFObjContext;
 use parsley_rust::pdf_lib::pdf_type_check::{
-    check_type, verif_steps, verif_steps_reset, TypeCheckContext, TypeCheckError,
+    check_type, verif_steps, verif_steps_reset, IndirectSpec, PDFType, Predicate, TypeCheck,
+    TypeCheckContext, TypeCheckError,
 };
 use std::rc::Rc;
 
@@ -29,49 +35,131 @@ fn kind(e: &TypeCheckError) -> &'static str {
     }
 }
 
-fn once(t: &[&str]) -> Option<(String, u64)> {
+const WATCHDOG_MS: u64 = 3000;
+
+type Verdict = (String, u64);
+
+struct Built {
+    ctxt: PDFObjContext,
+    tctx: TypeCheckContext,
+    chk:  Rc<TypeCheck>,
+}
+
+fn build(t: &[String]) -> Option<Built> {
     let mut ctxt = PDFObjContext::new(50);
-    pdfobj::read_ctx(t[1], &mut ctxt);
+    pdfobj::read_ctx(&t[1], &mut ctxt);
     let mut intern = tcspec::Interner::new();
     let mut tctx = TypeCheckContext::new();
-    if !tcspec::read_tctx(t[2], &mut tctx, &mut intern) {
+    if !tcspec::read_tctx(&t[2], &mut tctx, &mut intern) {
         return None
     }
-    let chk = tcspec::read_chk(t[3], &mut intern);
-    let obj = Rc::new(LocatedVal::new(pdfobj::read(t[4]), 0, 0));
+    let chk = tcspec::read_chk(&t[3], &mut intern);
+    Some(Built { ctxt, tctx, chk })
+}
+
+fn run_chk(b: &Built, chk: &Rc<TypeCheck>, objtext: &str) -> Verdict {
+    let obj = Rc::new(LocatedVal::new(pdfobj::read(objtext), 0, 0));
     verif_steps_reset();
-    let r = check_type(&ctxt, &tctx, obj, chk);
+    let r = check_type(&b.ctxt, &b.tctx, obj, Rc::clone(chk));
     let steps = verif_steps();
     let v = match r {
         None => "accept".to_string(),
         Some(e) => kind(e.val()).to_string(),
     };
-    Some((v, steps))
+    (v, steps)
+}
+
+// the name under which the root check is known to the context
+fn root_name(chktext: &str) -> String {
+    match chktext.strip_prefix('@') {
+        Some(n) => n.to_string(),
+        None => String::new(),
+    }
+}
+
+// a different check with the same name: Any, with or without a predicate that nothing satisfies.
+// It is registered in a scratch context only (TypeCheck::new* always registers).
+fn decoy(name: &str, reject: bool) -> Rc<TypeCheck> {
+    let mut scratch = TypeCheckContext::new();
+    let pred: Option<Rc<dyn Predicate>> =
+        if reject { Some(Rc::new(tcspec::P(tcspec::Pr::Never))) } else { None };
+    TypeCheck::new_all(&mut scratch, name, Rc::new(PDFType::Any), pred, IndirectSpec::Allowed)
+}
+
+// all the runs of one case; Err = what differed
+fn all_runs(t: &[String]) -> Option<Result<Verdict, String>> {
+    let b0 = build(t)?;
+    let v0 = run_chk(&b0, &b0.chk, &t[4]);
+    // from scratch
+    let b1 = build(t)?;
+    if run_chk(&b1, &b1.chk, &t[4]) != v0 {
+        return Some(Err("nondeterministic".to_string()))
+    }
+    // again on the same context
+    if run_chk(&b1, &b1.chk, &t[4]) != v0 {
+        return Some(Err("unstable:again".to_string()))
+    }
+    // a different check with the same name used before and after on the same context
+    let name = root_name(&t[3]);
+    for (reject, tag) in [(false, "decoy-accept"), (true, "decoy-reject")] {
+        let b = build(t)?;
+        let d = decoy(&name, reject);
+        let _ = run_chk(&b, &d, &t[4]);
+        if run_chk(&b, &b.chk, &t[4]) != v0 {
+            return Some(Err(format!("unstable:{}-before", tag)))
+        }
+        let _ = run_chk(&b, &d, &t[4]);
+        if run_chk(&b, &b.chk, &t[4]) != v0 {
+            return Some(Err(format!("unstable:{}-after", tag)))
+        }
+    }
+    Some(Ok(v0))
+}
+
+fn answer(t: &[String]) -> String {
+    if t[0] == "p" {
+        // printer self-test: read the specification, dump it again (predicates become opaque numbers)
+        let mut intern = tcspec::Interner::new();
+        let mut tctx = TypeCheckContext::new();
+        if !tcspec::read_tctx(&t[2], &mut tctx, &mut intern) {
+            return "badcase".to_string()
+        }
+        let chk = tcspec::read_chk(&t[3], &mut intern);
+        let (a, b) = tcspec::Printer::new().dump(&tctx, &chk);
+        return format!("{} {}", a, b)
+    }
+    match (t[0].as_str(), all_runs(t)) {
+        (_, None) => "badcase".to_string(),
+        (_, Some(Err(what))) => what,
+        ("v", Some(Ok((v, _)))) => v,
+        ("s", Some(Ok((v, steps)))) => format!("{} steps={} stable", v, steps),
+        _ => "badcase".to_string(),
+    }
 }
 
 pub fn run_case(t: &[&str]) -> String {
     if t.len() != 5 {
         return "badcase".to_string()
     }
-    if t[0] == "p" {
-        // printer self-test: read the specification, dump it again (predicates become opaque numbers)
-        let mut intern = tcspec::Interner::new();
-        let mut tctx = TypeCheckContext::new();
-        if !tcspec::read_tctx(t[2], &mut tctx, &mut intern) {
-            return "badcase".to_string()
-        }
-        let chk = tcspec::read_chk(t[3], &mut intern);
-        let (a, b) = tcspec::Printer::new().dump(&tctx, &chk);
-        return format!("{} {}", a, b)
-    }
-    match (t[0], once(t)) {
-        (_, None) => "badcase".to_string(),
-        ("v", Some((v, _))) => v,
-        ("s", Some((v, steps))) => match once(t) {
-            Some((v2, s2)) if v2 == v && s2 == steps => format!("{} steps={}", v, steps),
-            _ => "nondeterministic".to_string(),
+    // the case runs in a thread of its own; the values it builds (Rc) never leave it
+    let owned: Vec<String> = t.iter().map(|x| x.to_string()).collect();
+    let (tx, rx) = std::sync::mpsc::channel();
+    let th = std::thread::Builder::new()
+        .stack_size(256 << 20)
+        .spawn(move || {
+            let r = answer(&owned);
+            let _ = tx.send(r);
+        })
+        .expect("spawn");
+    match rx.recv_timeout(std::time::Duration::from_millis(WATCHDOG_MS)) {
+        Ok(s) => {
+            let _ = th.join();
+            s
         },
-        _ => "badcase".to_string(),
+        // the sender was dropped without an answer: the check panicked
+        Err(std::sync::mpsc::RecvTimeoutError::Disconnected) => "panic".to_string(),
+        // still running: the thread is abandoned (it ends with the process)
+        Err(std::sync::mpsc::RecvTimeoutError::Timeout) => "timeout".to_string(),
     }
 }
 
